@@ -303,6 +303,7 @@ func runC13(c *Ctx) {
 		R.Ob("(*Conn).handleBdat/receives the delivery result", c.P.Pos(f0.Pos()), nRecv >= 1, "no receive from Conn.dataResult")
 	}
 	ruleGoCapture(c)
+	ruleWriteDeadlineOwner(c) // every one of the n replies is written, however late its status arrives
 }
 
 // recvStatusIdx matches dataErrorToStatus(<-X.status[i])#0 and returns X, i.
